@@ -21,6 +21,7 @@ META = {
     ),
 }
 META["explanation"] += ' C06.R3 credits a guard only when its truth follows from the edge taken (boolean structure). C06.R4: per code, the payload columns of Frame._ctx cover those _pkt_idx reads.'
+META["explanation"] += ' C06.R5: decision tables of WantRply.pkt_rcvd and WantEcho.pkt_rcvd - accepted as the reply iff header == rx_header (or the 0418 null-entry) and, before the echo, addressed to the sender.'
 
 FR = "ramses_tx.frame"
 F = "ramses_tx.protocol_fsm"
